@@ -1214,3 +1214,45 @@ func (c *Ctx) rulePrunedAncestry() {
 		c.unresolved("isDescendantOfFunc arguments in GrandpaState")
 	}
 }
+
+// R-CMP/unsigned-diff (C34): an ordering is not decided by the sign of an unsigned difference.
+func (c *Ctx) ruleCmpUnsignedDiff(dir string, names ...string) {
+	c.doc("R-CMP/unsigned-diff", dir+": the comparators ("+strings.Join(names, ", ")+") never convert the difference of two unsigned values to a signed integer: for operands 2^63 or more apart the sign is wrong and the order is not even transitive")
+	sp := c.ssaPkg(dir)
+	if sp == nil {
+		return
+	}
+	n := 0
+	for _, f := range allFuncs(c, sp) {
+		match := false
+		for _, nm := range names {
+			if f.Name() == nm {
+				match = true
+			}
+		}
+		if !match {
+			continue
+		}
+		n++
+		bad := ""
+		eachInstr(f, func(_ *ssa.BasicBlock, _ int, in ssa.Instruction) {
+			cv, ok := in.(*ssa.Convert)
+			if !ok {
+				return
+			}
+			to, _ := cv.Type().Underlying().(*types.Basic)
+			if to == nil || to.Info()&types.IsInteger == 0 || to.Info()&types.IsUnsigned != 0 {
+				return
+			}
+			if bo, ok := cv.X.(*ssa.BinOp); ok && bo.Op == token.SUB {
+				if from, _ := bo.Type().Underlying().(*types.Basic); from != nil && from.Info()&types.IsUnsigned != 0 {
+					bad = c.pos(cv.Pos())
+				}
+			}
+		})
+		c.ob("R-CMP/unsigned-diff", relName(f.String())+":no-signed-view-of-unsigned-difference", f.Pos(), bad == "", "the comparator takes the sign of an unsigned difference at "+bad)
+	}
+	if n == 0 {
+		c.unresolved("comparators " + strings.Join(names, ",") + " in " + dir)
+	}
+}
